@@ -93,7 +93,13 @@ def check_case(prop, sp, col, shard_name='corpus', max_paths=3000):
         sel_left = [c for c in obs['choices'] if c.startswith('S:')]
         if not obs['feasible']:
             n_infeasible += 1
-            # an infeasible leaf must not correspond to an admissible assignment (no over-pruning, C06)
+            # an infeasible (partial) result must not be extendable to an admissible assignment (no over-pruning)
+            pa = {k[2:]: v for k, v in path}
+            ext = [a for archs in ref.values() for a in archs if all(a['assign'].get(k) == v for k, v in pa.items())]
+            if ext and not sp['conn']:
+                col.violation('admissible_branch_reported_infeasible', sp, {'path': path, 'admissible_extension':
+                                                                            ext[0]['assign']}, flags)
+            continue
             if not sel_left:
                 assign, problems = O.read_assignment(obs, model, hint={k[2:]: v for k, v in path})
                 if not problems and model.is_complete_minimal(assign) and dict(path).items() <= \
